@@ -308,15 +308,15 @@ def _shim_crosscheck(seed):
 
         bt = importlib.import_module(BT_MOD)
         rng = np.random.default_rng(seed)
-        for t in range(12):
-            sh = tuple(int(x) for x in rng.integers(3, 7, size=2))
+        for t in range(6):
+            sh = tuple(int(x) for x in rng.integers(3, 6, size=2))
             img = rng.random(sh) < 0.4
             ker = rng.random((3, 3)) < 0.6 if t % 2 else np.array(N4, dtype=bool)
             ref = np.asarray(jax.scipy.signal.convolve2d(rjnp.asarray(img), rjnp.asarray(ker), mode="same", boundary="fill"))
             got = convolve2d(A.asarray(img), A.asarray(ker), mode="same").to_numpy(float)
             c.prove(f"shim/convolve2d_matches_real_jax[{t}]", bool(got.shape == ref.shape and np.abs(got - ref).max() < 1e-6))
-        for t in range(4):
-            sh = tuple(int(x) for x in rng.integers(3, 6, size=3))
+        for t in range(2):
+            sh = tuple(int(x) for x in rng.integers(3, 5, size=3))
             arr = rng.random(sh) < 0.3
             mask = rng.random(sh) < 0.7
             k = np.array(N4, dtype=bool)
@@ -518,6 +518,7 @@ def _judge_remove(c, label, designs, kept, single_layer=False, max_witnesses=2):
     n = len(designs)
     bad_sound = []
     bad_complete = []
+    bad_single = []
     for i in range(n):
         m = np.asarray(designs[i], dtype=bool)
         o = oracle_connected(m)
@@ -525,9 +526,13 @@ def _judge_remove(c, label, designs, kept, single_layer=False, max_witnesses=2):
         if (k & ~o).any():
             bad_sound.append(i)
         if (o & ~k).any():
-            bad_complete.append(i)
-    comp_name = "remove_floating/single_layer_keeps_bottom_material" if single_layer else "remove_floating/complete:every_connected_cell_kept"
-    for name, bad in (("remove_floating/sound:only_connected_material_kept", bad_sound), (comp_name, bad_complete)):
+            # a single-layer design that loses ALL its material is the Nz == 1 seeding defect; anything else
+            # is a flood fill that stopped before its fixpoint
+            (bad_single if single_layer and not k.any() else bad_complete).append(i)
+    clauses = [("remove_floating/sound:only_connected_material_kept", bad_sound), ("remove_floating/complete:every_connected_cell_kept", bad_complete)]
+    if single_layer:
+        clauses.append(("remove_floating/single_layer_keeps_bottom_material", bad_single))
+    for name, bad in clauses:
         w = None
         if bad:
             # smallest failing design first
@@ -585,33 +590,39 @@ def _bounded_remove_templates(tier):
         for name, m in _templates(tier):
             d = m[None]
             _judge_remove(c, name, d, _run_remove(d))
-            # the same template through the parameter-transform class, both background indices
-            for bg in (0, 1):
+            # the small templates also through the parameter-transform class, both background indices
+            for bg in (0, 1) if max(m.shape) <= 5 else ():
                 _judge_remove(c, f"{name} via RemoveFloatingMaterial(bg={bg})", d, _run_remove(d, via_module_bg=bg))
+        # single-layer (2-D) designs: every material cell lies in the bottom layer
+        for name, m in (("single_layer_serpentine_9x9x1", serpentine_xy(9, 9, 1, 0)), ("single_layer_full_5x4x1", np.ones((5, 4, 1), bool))):
+            d = m[None]
+            _judge_remove(c, name, d, _run_remove(d), single_layer=True)
 
     return body
 
 
-def _bounded_remove_random(shape, n, seed, via_bg=None):
+def _bounded_remove_random(shapes, n, seed, via_bg=None):
     def body(c, inp):
         import numpy as np
 
-        rng = np.random.default_rng([seed, *shape, 23])
-        d = _random_designs(rng, shape, n)
-        lab = f"{n} seeded random designs on {shape}" + (f" via RemoveFloatingMaterial(bg={via_bg})" if via_bg is not None else "")
-        _judge_remove(c, lab, d, _run_remove(d, via_module_bg=via_bg), single_layer=(shape[2] == 1))
+        for shape in shapes:
+            rng = np.random.default_rng([seed, *shape, 23])
+            d = _random_designs(rng, shape, n)
+            lab = f"{n} seeded random designs on {shape}" + (f" via RemoveFloatingMaterial(bg={via_bg})" if via_bg is not None else "")
+            _judge_remove(c, lab, d, _run_remove(d, via_module_bg=via_bg), single_layer=(shape[2] == 1))
 
     return body
 
 
-def _bounded_connect_random(shape, n, seed, via_bg=None):
+def _bounded_connect_random(shapes, n, seed, via_bg=None):
     def body(c, inp):
         import numpy as np
 
-        rng = np.random.default_rng([seed, *shape, 2323])
-        d = _random_designs(rng, shape, n)
-        lab = f"{n} seeded random designs on {shape}" + (f" via ConnectHolesAndStructures(bg={via_bg})" if via_bg is not None else "")
-        _judge_connect(c, lab, d, _run_connect(d, via_module_bg=via_bg))
+        for shape in shapes:
+            rng = np.random.default_rng([seed, *shape, 2323])
+            d = _random_designs(rng, shape, n)
+            lab = f"{n} seeded random designs on {shape}" + (f" via ConnectHolesAndStructures(bg={via_bg})" if via_bg is not None else "")
+            _judge_connect(c, lab, d, _run_connect(d, via_module_bg=via_bg))
 
     return body
 
@@ -630,6 +641,10 @@ def _bounded_connect_templates(tier):
     return body
 
 
+def _sx(shp):
+    return "x".join(map(str, shp))
+
+
 def tasks(tier, seed):
     out = {}
     nob = dict(modules=[], bounded=True)
@@ -643,21 +658,20 @@ def tasks(tier, seed):
     thorough = tier == "thorough"
     out["bounded/remove/enumerated"] = Task(_bounded_remove_enum, **nob)
     out["bounded/remove/templates"] = Task(_bounded_remove_templates(tier), **nob)
-    shapes = [(3, 3, 3), (4, 4, 4), (5, 5, 5), (6, 5, 4), (8, 8, 4), (3, 7, 5)]
+    groups = [[(3, 3, 3), (4, 4, 4)], [(5, 5, 5), (6, 5, 4)], [(8, 8, 4), (3, 7, 5)]]
     if thorough:
-        shapes += [(10, 10, 6), (7, 7, 7), (12, 4, 5)]
-    for shp in shapes:
-        out[f"bounded/remove/random_{'x'.join(map(str, shp))}"] = Task(_bounded_remove_random(shp, 4000 if thorough else 600, seed), **nob)
-    out["bounded/remove/random_5x5x5_module_bg1"] = Task(_bounded_remove_random((5, 5, 5), 300, seed, via_bg=1), **nob)
-    for shp in ((5, 5, 1), (4, 7, 1)):
-        out[f"bounded/remove/single_layer_{'x'.join(map(str, shp))}"] = Task(_bounded_remove_random(shp, 200, seed), **nob)
-    cshapes = [(3, 3, 3), (4, 4, 4), (5, 5, 3), (5, 5, 5), (6, 6, 4)]
+        groups += [[(10, 10, 6)], [(7, 7, 7), (12, 4, 5)]]
+    for g in groups:
+        out[f"bounded/remove/random_{'_'.join(map(_sx, g))}"] = Task(_bounded_remove_random(g, 4000 if thorough else 600, seed), **nob)
+    out["bounded/remove/random_5x5x5_module_bg1"] = Task(_bounded_remove_random([(5, 5, 5)], 300, seed, via_bg=1), **nob)
+    out["bounded/remove/single_layer_5x5x1_4x7x1"] = Task(_bounded_remove_random([(5, 5, 1), (4, 7, 1)], 200, seed), **nob)
+    cgroups = [[(3, 3, 3), (4, 4, 4)], [(5, 5, 3), (5, 5, 5)], [(6, 6, 4)]]
     if thorough:
-        cshapes += [(7, 7, 5), (8, 8, 4)]
-    for shp in cshapes:
-        out[f"bounded/connect/random_{'x'.join(map(str, shp))}"] = Task(_bounded_connect_random(shp, 3000 if thorough else 500, seed), **nob)
-    out["bounded/connect/random_4x4x4_module_bg0"] = Task(_bounded_connect_random((4, 4, 4), 200, seed, via_bg=0), **nob)
-    out["bounded/connect/random_4x4x4_module_bg1"] = Task(_bounded_connect_random((4, 4, 4), 200, seed, via_bg=1), **nob)
+        cgroups += [[(7, 7, 5)], [(8, 8, 4)]]
+    for g in cgroups:
+        out[f"bounded/connect/random_{'_'.join(map(_sx, g))}"] = Task(_bounded_connect_random(g, 3000 if thorough else 500, seed), **nob)
+    out["bounded/connect/random_4x4x4_module_bg0"] = Task(_bounded_connect_random([(4, 4, 4)], 200, seed, via_bg=0), **nob)
+    out["bounded/connect/random_4x4x4_module_bg1"] = Task(_bounded_connect_random([(4, 4, 4)], 200, seed, via_bg=1), **nob)
     out["bounded/connect/templates"] = Task(_bounded_connect_templates(tier), **nob)
     return out
 
@@ -783,6 +797,26 @@ def replay(key, obligation, witness):
             m = arrs["M"].astype(bool)
         elif "P" in arrs:
             m = arrs["P"].astype(int) != int(w.get("notes", {}).get("background_idx", 0))
+    if (m is None or m.ndim != 3 or m.size == 0) and "design" not in w:
+        # the solver's model lives on a huge grid (shapes are unconstrained): look for a small failing
+        # input of the same obligation by a seeded search on the real code
+        rng = np.random.default_rng(23)
+        last = "no small failing input found in 300 seeded trials"
+        for t in range(300):
+            shp = tuple(int(x) for x in rng.integers(3, 6, size=3))
+            if "single_layer" in key:
+                shp = (shp[0], shp[1], 1)
+            mm = rng.random(shp) < rng.choice([0.3, 0.5, 0.7])
+            if "/pass:" in obligation or "/loop:" in obligation:
+                lsh = (shp[0], shp[1], 3) if shp[2] == 1 else shp
+                st = {"cur": rng.random(lsh) < 0.3, "cur_sup": rng.random(lsh) < 0.3}
+                ok, detail = _replay_pass(key, obligation, mm, st)
+            else:
+                sub = {"shape": list(shp), "design": [int(x) for x in mm.ravel()]}
+                ok, detail = replay(key, obligation, sub)
+            if ok:
+                return True, f"(seeded search, trial {t}) " + detail
+        return False, last
     if m is None or m.ndim != 3 or m.size == 0:
         return False, "witness carries no design"
     if min(m.shape[:2]) < 3 or m.shape[2] == 2:
